@@ -56,6 +56,7 @@ type Sched struct {
 	gs       []*G
 	cur      *G
 	history  []int
+	nsteps   int // visible operations performed while several goroutines existed (budget MaxSchedSteps)
 	preempt  int
 	progress int
 	fatal    interface{}
@@ -144,18 +145,6 @@ func (s *Sched) handoff(from, to *G, fromExits bool) {
 func (s *Sched) point(kind string) {
 	g := s.cur
 	r := s.r
-	if !s.multi() {
-		return
-	}
-	others := s.enabledOthers(g)
-	if len(others) > 0 && s.preempt < r.w.ex.cfg.Preempt {
-		cands := append([]int{g.id}, others...)
-		pick := r.ChooseFrom(cands, 's')
-		if pick != g.id {
-			s.preempt++
-			s.handoff(g, s.gs[pick], false)
-		}
-	}
 	k := 0
 	if strings.HasPrefix(kind, "atomic.") {
 		k = 1
@@ -167,6 +156,23 @@ func (s *Sched) point(kind string) {
 		k = 5
 	} else if kind == "vx.Gate" {
 		k = 6
+	}
+	if !s.multi() {
+		// single-goroutine phases (before the first go statement, after the last exit) are recorded too, so
+		// that the native schedule controller sees every gated operation of the main goroutine in order
+		if k != 0 && len(s.history) < 4*r.w.ex.cfg.MaxSchedSteps {
+			s.history = append(s.history, g.id*8+k)
+		}
+		return
+	}
+	others := s.enabledOthers(g)
+	if len(others) > 0 && s.preempt < r.w.ex.cfg.Preempt {
+		cands := append([]int{g.id}, others...)
+		pick := r.ChooseFrom(cands, 's')
+		if pick != g.id {
+			s.preempt++
+			s.handoff(g, s.gs[pick], false)
+		}
 	}
 	s.step(g, k)
 }
@@ -187,7 +193,8 @@ func (s *Sched) step(g *G, kind int) {
 		}
 	}
 	s.lastRunner = g.id
-	if len(s.history) > s.r.w.ex.cfg.MaxSchedSteps {
+	s.nsteps++
+	if s.nsteps > s.r.w.ex.cfg.MaxSchedSteps {
 		panic(abortRun{"schedule length budget exceeded"})
 	}
 }
